@@ -36,9 +36,12 @@ SPEC = Spec(
          "before the handshake / during verification / when ready: bad checksum, wrong magic, declared length larger or smaller than the data, "
          "classic frames declaring 4 GiB-1 for every command class, extended frames declaring 4 GiB-1 .. 2^64-1, hostile counts / string "
          "lengths inside version, reject, protoconf, tx (inputs, outputs, scripts), headers/inv/addr with huge counts, non-canonical varints, "
-         "random bytes, invalid UTF-8 commands, truncated frames, headers with hostile bits; then ping and peer close (Run must return). Second "
+         "random bytes, invalid UTF-8 commands, truncated frames, headers with hostile bits; then ping and peer close (Run must return). 12 % of the scripts run a node whose "
+         "TxManager has a 40 ms request timeout (init txto=) and drive the time-dependent paths: the same never-delivered txid announced 2 and 3 times with and without `wait ms=90` in between "
+         "(re-request after the timeout), inv after delivery, a tx delivered twice (classic / extended), `polltx` = TxManager.GetTxRequests + BitcoinNode.RequestTxs (what NodeManager.RequestTxs does). Second "
          "stream `realrepo`: the production headers.Repository behind the node (hostile bits / timestamps in headers after verification)",
     assumptions=[
+        "the clock is an input: ops during which the node reads the clock (inv, polltx) carry the harness's clock reading t=<ms since init>; the harness sleeps out of a 12 ms margin around the timeout before such an op and re-runs the script (up to 3 times) when the measured interval still leaves the side of the timeout open",
         "`none` (the node is waiting for input) is recognised when the node has consumed every byte sent, is blocked in Read and nothing arrived for 60 ms (counting wrapper around the node's side of the connection), else after the op's time bound",
         "a single allocation request above env.mem (2 GiB in the scripts; worker limit 3.5 GiB) aborts the process, requests between 256 MiB and 4 GiB-2 are not generated (grey zone of the limit)",
         "the Go runtime's makeslice panics above maxAlloc = 2^48 (recovered since 97ac3db), tries to allocate below",
